@@ -165,6 +165,10 @@ fn queries(name: &str, alias: &str) -> Vec<String> {
         q.push(alias.to_lowercase());
     }
     // near misses
+    // the ASCII string the low bytes of the name's characters spell (a lookup that truncates code units finds it)
+    if !name.is_ascii() {
+        q.push(name.chars().map(|c| if (c as u32) > 0x7F && ((c as u32 & 0xFF) as u8).is_ascii_graphic() && (c as u32 & 0xFF) as u8 != b'/' { (c as u32 & 0xFF) as u8 as char } else { c }).collect());
+    }
     q.push(format!("{}x", name));
     q.push(format!("x{}", name));
     q.push(format!("{}.", name));
